@@ -94,7 +94,7 @@ func declMatrix() []declCase {
 	add("integer INT64 multipleOf beyond 32 bits", "object Foo {\n  field a integer:INT64 {\n    rules.multipleOf = 5000000000\n  }\n}\n")
 	add("integer INT64 rules beyond 32 bits in array and map items", "object Foo {\n  field a array:integer:INT64 {\n    items.integer.rules.maximum = 5000000000\n  }\n  field m map:integer:INT64 {\n    itemSchema.integer.rules.minimum = 5000000000\n  }\n}\n")
 	add("unsigned 64 bit schema fields beyond 32 bits", "object Foo {\n  field s string {\n    rules.minLength = 1\n    rules.maxLength = 5000000000\n  }\n  field xs array:string {\n    rules.maxItems = 4294967296\n  }\n}\n")
-	add("entity nested schemas","entity Foo {\n  key fooId key:id62 {\n    primary = true\n  }\n  data kind enum:Kind\n  data part object:Part\n  status ACTIVE\n  event Create {\n    field part object:Part\n  }\n  enum Kind {\n    option A\n  }\n  object Part {\n    field x string\n  }\n}\n")
+	add("entity nested schemas", "entity Foo {\n  key fooId key:id62 {\n    primary = true\n  }\n  data kind enum:Kind\n  data part object:Part\n  status ACTIVE\n  event Create {\n    field part object:Part\n  }\n  enum Kind {\n    option A\n  }\n  object Part {\n    field x string\n  }\n}\n")
 	// imports
 	out = append(out, declCase{Name: "import package", Pkg: "foo.v1", Main: mainFile, Files: map[string]string{
 		mainFile:          "package foo.v1\n\nimport baz.v1:baz\n\nobject Foo {\n  field bar object:baz.Bar\n  field k enum:baz.Kind\n}\n",
